@@ -40,6 +40,9 @@ pub struct Knobs {
     pub battery_every: u32,
     /// Atomic upgrade: replace the file by rename with this content before lookup number `at`.
     pub upgrade: Option<(usize, Vec<u8>)>,
+    /// Later local-lookup positions at which the file is switched again (back to the first file,
+    /// then to the second, ...): an administrator changing the system zone back and forth.
+    pub toggles: Vec<usize>,
 }
 
 pub const MAX_CLOCK: i64 = 16_725_225_600; // 2500-01-01T00:00:00Z
@@ -310,6 +313,7 @@ fn real_path(
     want: &dyn Fn(&RefZone, i64) -> Answer,
 ) -> Result<(), Fail> {
     let mut n_local = 0usize;
+    let mut on_second = false;
     for (k, t) in instants.iter().enumerate() {
         if *t < 0 {
             continue;
@@ -317,8 +321,16 @@ fn real_path(
         if let Some((at, ub)) = &knobs.upgrade {
             if *at == n_local {
                 fs.apply(&WriterStep::RenameReplace { data: ub.clone() });
+                on_second = true;
                 if let Some(s) = stats.as_deref_mut() {
                     s.inc("c18.fault.atomic_upgrade.injected");
+                }
+            } else if n_local > *at && knobs.toggles.contains(&n_local) {
+                on_second = !on_second;
+                let data = if on_second { ub.clone() } else { case.bytes.clone() };
+                fs.apply(&WriterStep::RenameReplace { data });
+                if let Some(s) = stats.as_deref_mut() {
+                    s.inc("c18.fault.zone_switched_back_and_forth.injected");
                 }
             }
         }
@@ -533,6 +545,107 @@ pub fn system_files() -> Vec<(String, std::path::PathBuf)> {
     v
 }
 
+/// A zone that differs from `z` in exactly one component of its footer rule (a rule time, the
+/// daylight offset, the standard offset, or one of the two dates), everything else identical.
+pub fn sibling_of(z: &RefZone, rng: &mut Rng) -> Option<Vec<u8>> {
+    let rule = match &z.footer {
+        Footer::Rule(r) => r.clone(),
+        _ => return None,
+    };
+    let v3 = z.version >= 3;
+    for _ in 0..20 {
+        let mut r = rule.clone();
+        match (&mut r.dst, rng.below(6)) {
+            (Some(d), 0) => d.start_time += *rng.pick(&[-3600, 3600, 1800, 7200]),
+            (Some(d), 1) => d.end_time += *rng.pick(&[-3600, 3600, 1800, 7200]),
+            (Some(d), 2) => d.off += *rng.pick(&[-3600, 1800, 3600]),
+            (Some(d), 3) => {
+                if let tzref::RuleDate::M { w, .. } = &mut d.start {
+                    *w = if *w == 5 { 4 } else { *w + 1 };
+                } else if let tzref::RuleDate::J(n) = &mut d.start {
+                    *n = (*n % 365) + 1;
+                } else if let tzref::RuleDate::N(n) = &mut d.start {
+                    *n = (*n + 1) % 365;
+                }
+            }
+            (Some(d), 4) => {
+                if let tzref::RuleDate::M { d: wd, .. } = &mut d.end {
+                    *wd = (*wd + 1) % 7;
+                } else if let tzref::RuleDate::J(n) = &mut d.end {
+                    *n = (*n % 365) + 1;
+                } else if let tzref::RuleDate::N(n) = &mut d.end {
+                    *n = (*n + 1) % 365;
+                }
+            }
+            _ => r.std_off += *rng.pick(&[-3600, 3600, 1800]),
+        }
+        if let Some(d) = &r.dst {
+            let lim = if v3 { 167 * 3600 } else { 24 * 3600 };
+            if d.start_time.abs() > lim || d.end_time.abs() > lim || (!v3 && (d.start_time < 0 || d.end_time < 0)) {
+                continue;
+            }
+            if d.off.abs() > 24 * 3600 {
+                continue;
+            }
+        }
+        if r.std_off.abs() > 24 * 3600 || r == rule || !tzref::rule_premise(&r) {
+            continue;
+        }
+        let mut spec = spec_from_ref(z);
+        spec.footer = Some(tzgen::render_posix(rng, &r));
+        let mut bytes = spec.build();
+        let ok = tzref::parse_tzif(&bytes).map(|zz| zz.footer_consistent()).unwrap_or(false);
+        if !ok {
+            // the footer alone in charge: always consistent
+            spec.trans.clear();
+            bytes = spec.build();
+            if tzref::parse_tzif(&bytes).is_err() {
+                continue;
+            }
+        }
+        return Some(bytes);
+    }
+    None
+}
+
+/// A process lifetime: a monotonic sequence of instants (the way a long-running process asks for
+/// local time), starting at a random point - often at a year boundary or next to a switch-over.
+pub fn lifetime_walk(z: &RefZone, rng: &mut Rng) -> Vec<i64> {
+    let lo = z.trans.first().map(|t| t.0).unwrap_or(0).max(0);
+    let mut t = match rng.below(4) {
+        0 => {
+            let y = rng.range(cal::year_of_unix(lo).max(1970), 2498);
+            cal::unix_from_civil(y, 12, 31, 0, 0, 0) + rng.range(-86400, 2 * 86400)
+        }
+        1 => match &z.footer {
+            Footer::Rule(r) if r.dst.is_some() => {
+                let y = rng.range(cal::year_of_unix(lo).max(1970), 2498);
+                let (s, e) = r.switches(y).unwrap();
+                (if rng.chance(1, 2) { s } else { e }) - rng.range(0, 3 * 86400)
+            }
+            _ => rng.range(lo, MAX_CLOCK - 1),
+        },
+        _ => rng.range(lo, MAX_CLOCK - 1),
+    };
+    let mut v = Vec::new();
+    for _ in 0..rng.range(8, 40) {
+        if t >= MAX_CLOCK || t < 0 {
+            break;
+        }
+        v.push(t);
+        t += match rng.below(7) {
+            0 => 1,
+            1 => rng.range(1, 120),
+            2 => rng.range(60, 7200),
+            3 => rng.range(3600, 3 * 86400),
+            4 => rng.range(86400, 40 * 86400),
+            5 => rng.range(30 * 86400, 200 * 86400),
+            _ => rng.range(1, 86400),
+        };
+    }
+    v
+}
+
 pub fn spec_from_ref(z: &RefZone) -> TzSpec {
     TzSpec {
         version: z.version,
@@ -561,7 +674,7 @@ fn fails_same(bytes: &[u8], t: i64, nanos: u32, inv: &str, knobs: &Knobs) -> Opt
 
 /// Reduce to the one failing instant, then drop transitions while the same invariant keeps failing.
 pub fn minimise(case: &ZoneCase, z: &RefZone, fail: &Fail) -> (Vec<u8>, Fail) {
-    let knobs = Knobs { read_cost_ns: 0, battery_every: 1, upgrade: None };
+    let knobs = Knobs { read_cost_ns: 0, battery_every: 1, upgrade: None, toggles: Vec::new() };
     let mut best_bytes = case.bytes.clone();
     let mut best = match fails_same(&best_bytes, fail.t, fail.nanos, fail.invariant, &knobs) {
         Some(f) => f,
@@ -602,7 +715,10 @@ pub fn knobs_to_json(j: Json, knobs: &Knobs, nanos: &[u32]) -> Json {
         .set("battery_every", Json::Int(knobs.battery_every as i128))
         .set("nanos_cycle", Json::Arr(nanos.iter().map(|n| Json::Int(*n as i128)).collect()));
     match &knobs.upgrade {
-        Some((at, b)) => j.set("upgrade_before_local_lookup", Json::u(*at)).set("upgrade_tzif_hex", Json::s(&hex(b))),
+        Some((at, b)) => j
+            .set("upgrade_before_local_lookup", Json::u(*at))
+            .set("upgrade_tzif_hex", Json::s(&hex(b)))
+            .set("toggle_before_local_lookups", Json::Arr(knobs.toggles.iter().map(|t| Json::u(*t)).collect())),
         None => j,
     }
 }
@@ -618,6 +734,7 @@ pub fn knobs_from_json(doc: &Json) -> (Knobs, Option<Vec<u32>>) {
             read_cost_ns: doc.get("read_cost_ns").and_then(|v| v.int()).unwrap_or(0) as u64,
             battery_every: doc.get("battery_every").and_then(|v| v.int()).unwrap_or(1) as u32,
             upgrade,
+            toggles: doc.get("toggle_before_local_lookups").and_then(|v| v.arr()).map(|a| a.iter().filter_map(|x| x.int().map(|i| i as usize)).collect()).unwrap_or_default(),
         },
         nanos.filter(|n| !n.is_empty()),
     )
@@ -748,17 +865,40 @@ pub fn one_run(w: &Work, seed: u64, idx: u64, stats: &mut Stats) -> Option<u64> 
     };
     stats.inc("c18.configurations");
     stats.inc(&format!("c18.source.{}", case.source));
-    let instants = instants_for(&z, &mut rng, w.n_random, w.rule_years);
+    let mut instants = instants_for(&z, &mut rng, w.n_random, w.rule_years);
+    if rng.chance(1, 3) {
+        // a process lifetime with a monotonic clock, before or after the probe list
+        let walk = lifetime_walk(&z, &mut rng);
+        stats.inc("c18.reach.monotonic_lifetime_walks");
+        if rng.chance(1, 2) {
+            let mut v = walk;
+            v.extend(instants);
+            instants = v;
+        } else {
+            instants.extend(walk);
+        }
+    }
     let nanos: Vec<u32> = (0..7).map(|i| if i == 0 { 0 } else if i == 1 { 999_999_999 } else { rng.below(1_000_000_000) as u32 }).collect();
     let slow = rng.chance(1, 4);
-    let upgrade = if rng.chance(1, 6) {
-        // the tzdata package replaces the file by rename while the process keeps looking up
-        let other = if !w.corpus.is_empty() && rng.chance(1, 2) {
-            std::fs::read(&w.corpus[rng.usize(w.corpus.len())].1).ok()
-        } else {
-            Some(tzgen::synth(&mut rng).spec.build())
+    let mut toggles: Vec<usize> = Vec::new();
+    let upgrade = if rng.chance(1, 5) {
+        // the tzdata package (or an administrator) replaces the file by rename while the process
+        // keeps looking up: an unrelated zone, or a sibling that differs in one footer component
+        let other = match rng.below(4) {
+            0 if !w.corpus.is_empty() => std::fs::read(&w.corpus[rng.usize(w.corpus.len())].1).ok(),
+            1 => Some(tzgen::synth(&mut rng).spec.build()),
+            _ => sibling_of(&z, &mut rng).or_else(|| Some(tzgen::synth(&mut rng).spec.build())),
         };
-        other.map(|b| (rng.usize(instants.len().max(1)), b))
+        let n_local = instants.iter().filter(|t| **t >= 0).count().max(1);
+        let at = rng.usize(n_local);
+        if rng.chance(1, 2) {
+            for _ in 0..rng.range(1, 6) {
+                toggles.push(at + 1 + rng.usize((n_local - at).max(1)));
+            }
+            toggles.sort_unstable();
+            toggles.dedup();
+        }
+        other.map(|b| (at, b))
     } else {
         None
     };
@@ -766,6 +906,7 @@ pub fn one_run(w: &Work, seed: u64, idx: u64, stats: &mut Stats) -> Option<u64> 
         read_cost_ns: if slow { rng.range(1, 2_500_000_000) as u64 } else { 0 },
         battery_every: if case.source == "synth" { 16 } else { 8 },
         upgrade,
+        toggles,
     };
     let class = (z.version as u64)
         | (match z.trans.len() {
